@@ -108,6 +108,40 @@ M('revert-fix-list-flags-ifelse', ['C03'], (RT, "            await self.returnTy
 M('list-flags-ifelse-half', ['C03'], (RT, "            await self.returnType((stype, all(b.integral for b in x + y)), n)", "            await self.returnType((stype, all(b.integral for b in x)), n)"))
 M('sum-first-element-flag', ['C03'], (RT, "            await self.returnType((stype, all(a.integral for a in x)))", "            await self.returnType((stype, x[0].integral))"))
 
+# ---------------------------------------------------------------- SC1 (a violation other than the listed known finding must still be reported)
+M('norm-scale-other-site', ['C02'], (RT, "        return (s*2 - 1) * nf * (2**(f - (l-1)))  # NB: f <= l\n\n    def _rec(self, a):", "        return (s*2 - 1) * nf * (2**(f - l))  # NB: f <= l\n\n    def _rec(self, a):"))
+
+# ---------------------------------------------------------------- CV (C06)
+M('convert-two-ucis', ['C06'], (RT, "            t_r = thresha.pseudorandom_share(t_field, m, self.pid, prfs, uci, n)", "            t_r = thresha.pseudorandom_share(t_field, m, self.pid, prfs, self._prss_uci(), n)"))
+M('convert-same-field-twice', ['C06'], (RT, "            t_r = thresha.pseudorandom_share(t_field, m, self.pid, prfs, uci, n)", "            t_r = thresha.pseudorandom_share(s_field, m, self.pid, prfs, uci, n)"))
+M('convert-noprss-fresh-target', ['C06'], (RT, "                t_r = [t_field(a) for a in r]\n                del r", "                t_r = [t_field(secrets.randbelow(bound)) for a in r]\n                del r"))
+M('convert-offset-not-removed', ['C06'], (RT, "                x[i] = self._mod(t_type(x[i]), s_field.modulus)\n            x[i] = x[i] - offset", "                x[i] = self._mod(t_type(x[i]), s_field.modulus)\n            x[i] = x[i]"))
+M('convert-unmask-with-source-share', ['C06'], (RT, "            x[i] = x[i].value - t_r[i]\n            if s_is_SecureFiniteField:", "            x[i] = x[i].value - int(s_r[i])\n            if s_is_SecureFiniteField:"))
+M('convert-mask-other-element', ['C06'], (RT, "            x[i] = x[i].value - t_r[i]\n            if s_is_SecureFiniteField:", "            x[i] = x[i].value - t_r[0]\n            if s_is_SecureFiniteField:"))
+M('convert-trunc-wrong-sign', ['C06'], (RT, "        if d < 0:\n            x = await self.trunc(x, f=-d, l=s_type.bit_length)", "        if d > 0:\n            x = await self.trunc(x, f=d, l=s_type.bit_length)"))
+M('convert-shift-always', ['C06'], (RT, "        if d > 0 and not s_is_SecureFiniteField:\n            for i in range(n):\n                x[i] <<= d", "        if not s_is_SecureFiniteField:\n            for i in range(n):\n                x[i] <<= d"))
+M('convert-d-reversed', ['C06'], (RT, "        d = t_type.frac_length - s_type.frac_length  # TODO: use integral attribute fxp", "        d = s_type.frac_length - t_type.frac_length"))
+M('convert-narrow-intermediate', ['C06'], (RT, "            size = max(s_type.field.order, t_type.field.order)", "            size = min(s_type.field.order, t_type.field.order)"))
+M('convert-mask-bound-small', ['C06', 'C18'], (RT, "                bound = (1<<(k + l)) // math.comb(m, t) + 1", "                bound = (1<<l) // math.comb(m, t) + 1"))
+
+# ---------------------------------------------------------------- SN (C29, np_sort part of C37)
+M('sort-step-inner-list', ['C29'], (RT, "                        x[i], x[i + d] = self.if_swap(key(a) < key(b), b, a)\n                d, q, r = q - p, q >> 1, p", "                        x[i], x[i + d] = self.if_swap(key(a) < key(b), b, a)\n                d, q, r = q - p, q >> 1, 0"))
+M('sort-index-predicate-np', ['C29', 'C37'], (RT, "                I = np.fromiter((i for i in range(n - d) if i & p == r), dtype=int)", "                I = np.fromiter((i for i in range(n - d) if i & p == 0), dtype=int)"))
+M('sort-swap-orientation-list', ['C29'], (RT, "                        x[i], x[i + d] = self.if_swap(key(a) < key(b), b, a)", "                        x[i], x[i + d] = self.if_swap(key(a) < key(b), a, b)"))
+M('sort-write-other-position', ['C29'], (RT, "                        x[i], x[i + d] = self.if_swap(key(a) < key(b), b, a)", "                        x[i], x[i + p] = self.if_swap(key(a) < key(b), b, a)"))
+M('sort-np-orientation', ['C29', 'C37'], (RT, "                h = (key(b1) < key(b0)) * (b1 - b0)", "                h = (key(b0) < key(b1)) * (b1 - b0)"))
+M('sort-np-view', ['C29', 'C37'], (RT, "        if axis is None:\n            a = self.np_flatten(a)\n            axis = 0", "        if axis is None:\n            a = self.np_reshape(a, (-1,))\n            axis = 0"))
+M('argmin-ties-last', ['C29'], (RT, "        c = key(min1) < key(min0)", "        c = key(min1) <= key(min0)"))
+M('argmax-ties-last', ['C29'], (RT, "        c = key(max0) < key(max1)\n        a = self.if_else(c, i1, i0)\n        m = self.if_else(c, max1, max0)", "        c = key(max1) < key(max0)\n        a = self.if_else(c, i0, i1)\n        m = self.if_else(c, max0, max1)"))
+M('argmin-no-offset', ['C29'], (RT, "        i0, min0 = self._argmin(x[:n//2], key)\n        i1, min1 = self._argmin(x[n//2:], key)\n        i1 += n//2", "        i0, min0 = self._argmin(x[:n//2], key)\n        i1, min1 = self._argmin(x[n//2:], key)\n        i1 += (n+1)//2"))
+M('max-selects-min', ['C29'], (RT, "        return self.if_else(key(max0) < key(max1), max1, max0)", "        return self.if_else(key(max0) < key(max1), max0, max1)"))
+M('min-halves-gap', ['C29'], (RT, "        min0 = self.min(x[:n//2], key=key)\n        min1 = self.min(x[n//2:], key=key)", "        min0 = self.min(x[:n//2], key=key)\n        min1 = self.min(x[(n+1)//2:], key=key)"))
+M('argmax-index-not-following', ['C29'], (RT, "        c = key(max0) < key(max1)\n        a = self.if_else(c, i1, i0)", "        c = key(max0) < key(max1)\n        a = self.if_else(key(max0) <= key(max1), i1, i0)"))
+M('sorted-in-place', ['C29'], (RT, "        self._sort(x, key)  # TODO: stable sort &  vectorization of <'s\n        if reverse:\n            x.reverse()", "        self._sort(x, key)  # TODO: stable sort &  vectorization of <'s\n        if not reverse:\n            x.reverse()"))
+
+M('revert-fix-min_max-key', ['C29'], (RT, "            x[i], x[-1-i] = self.if_swap(key(a) >= key(b), a, b)", "            x[i], x[-1-i] = self.if_swap(a >= b, a, b)"))
+M('sort-compare-without-key', ['C29'], (RT, "                        x[i], x[i + d] = self.if_swap(key(a) < key(b), b, a)", "                        x[i], x[i + d] = self.if_swap(a < b, b, a)"))
+
 B('rename-local-pcw',
   (AC, "            pc = self.runtime._program_counter\n            self.runtime._program_counter = self.pc\n",
        "            saved = self.runtime._program_counter\n            self.runtime._program_counter = self.pc\n"),
